@@ -39,6 +39,17 @@ func markDecl(g *gen, sd *StructDesc) {
 				out = append(out, quoteTag("default", "SECRET"+f.Name+"X"))
 			}
 			f.Tag = strings.Join(out, " ")
+		} else if f.Sub != nil && strings.Contains(f.Tag, "command:\"") {
+			// a command: its description is a marker too
+			var out []string
+			for _, t := range splitTagPairs(f.Tag) {
+				if !strings.HasPrefix(t, "description:") {
+					out = append(out, t)
+				}
+			}
+			out = append(out, quoteTag("description", "cmddesc-of-"+f.Name+"-end"))
+			f.Tag = strings.Join(out, " ")
+			markDecl(g, f.Sub)
 		} else if f.Sub != nil && strings.Contains(f.Tag, "positional-args") {
 			// positional arguments: some described (by a marker), some not, in any order
 			for si := range f.Sub.Fields {
@@ -161,7 +172,11 @@ func checkC16(c *Ctx, n int) {
 				markDecl(g, cs.Build[bi].Struct)
 			}
 		}
-		g.addProgrammatic(cs)
+		if g.chance(0.25) && cs.Build[0].Struct != nil && hideOnlyChild(cs.Build[0].Struct) {
+			c.Class("c16/only-subcommand-hidden")
+		} else {
+			g.addProgrammatic(cs)
+		}
 		real, _ := BuildReal(cs)
 		if real.dead {
 			continue
@@ -264,6 +279,27 @@ func scanInterface(c *Ctx, cr *CaseResult, which, text string, vis, hid []*flags
 		}
 	}
 	if which == "help" {
+		// the subcommands of the innermost active command: the visible ones listed, the hidden ones not
+		inner := cr.Real.p.Command
+		for inner.Active != nil {
+			inner = inner.Active
+		}
+		for _, sub := range inner.Commands() {
+			if !strings.HasPrefix(sub.ShortDescription, "cmddesc-of-") {
+				continue
+			}
+			shown := strings.Contains(squash(text), squash(sub.ShortDescription))
+			inC := map[string]interface{}{"case": cr.Case.Description, "generator": which, "command": inner.Name, "subcommand": sub.Name, "hidden": sub.Hidden}
+			ok := shown != sub.Hidden
+			if !ok {
+				inC["case_file"] = c.saveCase(cr)
+			}
+			if sub.Hidden {
+				c.Check("hidden-subcommand-is-not-listed", ok, "C16:hidden-command-shown", inC, "listed: "+sub.ShortDescription, "absent")
+			} else {
+				c.Check("visible-subcommand-is-listed", ok, "C16:command-missing", inC, "absent: "+sub.ShortDescription, "listed")
+			}
+		}
 		// every described positional argument of the active chain
 		for cmd := cr.Real.p.Command; cmd != nil; cmd = cmd.Active {
 			for _, a := range cmd.Args() {
